@@ -225,15 +225,15 @@ func runCacheOps(sc *Scenario) *cacheRun {
 	}
 	s := newSched(sc, 40*total+100)
 	s.Between = func(step int) {
+		if sc.Pre && !cr.VerifLockFree() {
+			return // a task is parked inside the critical section: not a state any caller can observe, nor safe to walk
+		}
 		ks, idx := cr.VerifKeys()
 		h := uint64(1469598103934665603)
 		for _, k := range ks {
 			h = (h ^ hashStr(k)) * 1099511628211
 		}
 		out.States = append(out.States, h)
-		if sc.Pre && !cr.VerifLockFree() {
-			return // a task is parked inside the critical section: not a state any caller can observe
-		}
 		if len(ks) > sc.CacheCap {
 			out.Between = append(out.Between, fmt.Sprintf("cache holds %d entries with capacity %d (step %d)", len(ks), sc.CacheCap, step))
 		}
